@@ -38,6 +38,8 @@ func (lineParser *LineParser) ParseMarkup(input string) (*ParseResult, error) {
 
 func (lineParser *LineParser) parseMarkup() (*ParseResult, error) {
 	lineParser.reader = strings.NewReader(lineParser.input)
+	lineParser.sourcePosition = 0
+	lineParser.position = 0
 	builder := strings.Builder{}
 	markers := []attributeMarker{}
 	var lastRune rune
